@@ -29,7 +29,9 @@ POSTCONDITION Report
 CHECK_DEADLOCK FALSE
 """
 
-NAMES = ["My Spa", "a|b", "|", "caf\xe9 b\xf6b's", "x", "", "Spa||2|", "\xff\xfe name", "Udp Test Spa"]
+NAMES = ["My Spa", "a|b", "|", "caf\xe9 b\xf6b's", "x", "", "Spa||2|", "\xff\xfe name", "Udp Test Spa",
+         # names whose first / last character is whitespace to str.strip (incl. latin-1 NBSP, NEL, FS..US)
+         " padded ", "nbsp\xa0", "\x85nel", "tab\t", "\x1cfs us\x1f", " Hot|Tub|2 "]
 
 
 class Responder:
